@@ -5,6 +5,17 @@ from checks import css_common as cc
 
 def main(tier):
     res = cc.run_property('C08', tier, ['class_block', 'value_block', 'qualified_rule', 'at_rule'], extra_targets=[])
+    # the writers themselves: one call of each token appender from an arbitrary output state writes the token exactly once
+    from checks import c19, css_entry
+    from lib import common
+    from mirsym.mir import Module, MirUnsupported
+    try:
+        n = c19.column_target(Module(common.mir_dump('sc')), res, prop='C08')
+        res.coverage['obligations'] = res.coverage.get('obligations', 0) + n
+    except MirUnsupported as e:
+        what = 'the token appenders are outside the executor (%s): not decided' % str(e)[:140]
+        if not css_entry.probe_sheets(res, {'engine': 'replay', 'harness': 'appender', 'class': 'unsupported'}, what):
+            res.inconc(what + '; the probe sheets show no deviation')
     return res.finish()
 
 
